@@ -64,8 +64,10 @@ def main():
             viol = [l for l in out2.splitlines() if l.startswith('VIOLATION')]
             det[c] = {'exit': rc2, 'violation_lines': viol, 'tail': out2[-300:]}
             meta['ran'].append(f'./check {c} quick')
-        meta['detected_by'] = sorted(c for c, d in det.items() if d['exit'] != 0 and d['violation_lines'])
-        meta['check_results'] = det
+        new_det = set(c for c, d in det.items() if d['exit'] != 0 and d['violation_lines'])
+        # a re-validation runs only the checks named; detections recorded earlier for other checks are kept
+        meta['detected_by'] = sorted(new_det | (set(old.get('detected_by') or []) - set(checks)))
+        meta['check_results'] = dict(old.get('check_results') or {}, **det)
     finally:
         sh('git checkout -- .', cwd=REPO)
         sh('git clean -fdq -- wal wawk', cwd=REPO)
